@@ -283,6 +283,39 @@ def eval_vtt(spec, video, relativize, fit=False, padded=False):
     return v, settings
 
 
+def eval_fit_absolute(ox, oy, ext, writer="DFXPWriter"):
+    """relativization off, fit-to-screen on, origin in pixels (extent none / pixels / percent): the safe area is defined in
+    percentages, so the writer either refuses (the documented ValueError "Units must be relativized ...") or leaves the
+    lengths alone - it never derives a percentage extent from pixel numbers"""
+    import pycaption
+    from pycaption.geometry import Layout, Point, Size, Stretch, UnitEnum
+
+    px = lambda n: Size(n, UnitEnum.PIXEL)  # noqa: E731
+    pc = lambda n: Size(n, UnitEnum.PERCENT)  # noqa: E731
+    extent = {"none": None, "px": Stretch(px(200), px(100)), "mixed": Stretch(pc(10), px(200))}[ext]
+    layout = Layout(origin=Point(ox, oy), extent=extent)
+    klass = f"origin-in-pixels/extent-{ext}"
+    try:
+        doc = getattr(pycaption, writer)(relativize=False, fit_to_screen=True).write(mk_set(layout, "caption"))
+    except ValueError:
+        return [], "refused"  # "Units must be relativized ..." / "The sizes should have the same measure units."
+    except Exception as e:  # noqa
+        return [(f"C13/fit/raises:{type(e).__name__}/{klass}", {"err": str(e)[:200]})], "raises"
+    v = []
+    if writer == "DFXPWriter":
+        attrs = dfxp_region_attrs(doc)
+        ex = (attrs or {}).get("extent")
+        if ex and ext != "mixed" and "%" in ex:
+            v.append((f"C13/fit/percentage-extent-derived-from-pixel-lengths/{klass}", {"attrs": attrs}))
+        if ex and any(part.startswith("-") for part in ex.split(" ")):
+            v.append((f"C13/fit/negative-extent/{klass}", {"attrs": attrs}))
+        return v, (attrs or {}).get("extent")
+    settings = parsers.parse_vtt(doc)[0]["settings"]
+    if ABS_LEN.search(settings) or "-" in settings.replace("align:", ""):
+        v.append((f"C13/fit/webvtt-setting-from-pixel-lengths/{klass}", {"settings": settings}))
+    return v, settings
+
+
 def eval_doc_padding(vals, video):
     """a DFXP region whose tts:padding is spelled with one to four lengths (TTML order: before end after start) is read
     and written back with relativization: each edge must be the percentage of its own axis"""
@@ -531,6 +564,19 @@ def run_shard(d):
                 for sig, det in v:
                     acc.violation(sig + "/fit", {"k": "vtt", "spec": spec, "video": (640, 360), "rel": rel, "fit": True}, det)
     else:
+        if d["level"] == "caption":
+            from pycaption.geometry import Size, UnitEnum
+
+            for ox in (Size(100, UnitEnum.PIXEL), Size(10, UnitEnum.PERCENT), Size(2, UnitEnum.EM)):
+                for oy in (Size(50, UnitEnum.PIXEL), Size(10, UnitEnum.PERCENT), Size(3, UnitEnum.CELL)):
+                    if ox.unit == UnitEnum.PERCENT and oy.unit == UnitEnum.PERCENT:
+                        continue
+                    for ext in ("none", "px", "mixed"):
+                        for wr in ("DFXPWriter", "WebVTTWriter"):
+                            v, out = eval_fit_absolute(ox, oy, ext, wr)
+                            acc.case(("fit-absolute", str(ox), str(oy), ext, wr), True, out, {"origin": [str(ox), str(oy)], "extent": ext, "writer": wr, "relativize": False, "fit_to_screen": True})
+                            for sig, det in v:
+                                acc.violation(sig, {"k": "fit-absolute", "ox": [ox.value, ox.unit.value], "oy": [oy.value, oy.unit.value], "ext": ext, "writer": wr}, det)
         xs = [str(Fraction(i, 2)) for i in range(170, 182)]
         ys = [str(Fraction(i, 2)) for i in range(180, 192)]
         xs = ["0", "10"] + xs
@@ -568,6 +614,10 @@ def replay(case):
             v, _ = eval_vtt(spec, video, case["rel"], case.get("fit", False), bool(case.get("padded")))
             if case.get("fit"):
                 v = [(s_ + "/fit", d_) for s_, d_ in v]
+    elif k == "fit-absolute":
+        from pycaption.geometry import Size, UnitEnum
+
+        v, _ = eval_fit_absolute(Size(case["ox"][0], UnitEnum(case["ox"][1])), Size(case["oy"][0], UnitEnum(case["oy"][1])), case["ext"], case["writer"])
     elif k == "doc-padding":
         v, _ = eval_doc_padding([tuple(x) for x in case["vals"]], tuple(case["video"]))
     else:
